@@ -42,8 +42,9 @@ type CrashRec struct {
 	// power-loss shadow
 	durable    map[string]string
 	lastUnsync map[string]*FSEvent // last write since the file's last sync
-	prevSync   string
-	prevValid  bool
+	prevSync    string
+	prevValid   bool
+	prevDirSync bool
 
 	cur  int
 	infl bool
@@ -116,6 +117,17 @@ func (cr *CrashRec) onEvent(ev *FSEvent) (bool, int, error) {
 		}
 		cr.prevValid = ev.Op == "sync"
 		cr.prevSync = ev.Path
+		// a directory sync that was announced by the previous event has completed: every removal made before it
+		// is durable, the removed files cannot come back
+		if cr.prevDirSync {
+			for p := range cr.durable {
+				if _, still := snap.Files[p]; !still {
+					delete(cr.durable, p)
+					delete(cr.lastUnsync, p)
+				}
+			}
+		}
+		cr.prevDirSync = ev.Op == "syncdir"
 	}
 	keep := cr.KeepProb >= 1 || cr.Rng.Float64() < cr.KeepProb
 	if keep {
@@ -212,15 +224,26 @@ func (cr *CrashRec) powerImages(cur *Snapshot, ev *FSEvent, base Image) {
 		img.Kind, img.Snap, img.TornLen = "pl-torn", t, n
 		cr.add(img)
 	}
-	// removal undone: a data file the library has removed comes back with its durable content
-	for p, c := range cr.durable {
+	// removal undone: data files the library has removed (and whose removal no directory sync has made durable)
+	// come back with their durable content - each one alone, and all of them together
+	var gone []string
+	for p := range cr.durable {
 		if _, still := cur.Files[p]; !still && strings.HasSuffix(p, ".dat") {
-			u := d.clone()
-			u.Files[p] = c
-			img.Kind, img.Snap, img.TornLen = "pl-unremoved", u, 0
-			cr.add(img)
-			break
+			gone = append(gone, p)
 		}
+	}
+	sort.Strings(gone)
+	all := d.clone()
+	for _, p := range gone {
+		u := d.clone()
+		u.Files[p] = cr.durable[p]
+		all.Files[p] = cr.durable[p]
+		img.Kind, img.Snap, img.TornLen = "pl-unremoved", u, 0
+		cr.add(img)
+	}
+	if len(gone) > 1 {
+		img.Kind, img.Snap, img.TornLen = "pl-unremoved", all, 0
+		cr.add(img)
 	}
 }
 
@@ -391,6 +414,9 @@ func (cr *CrashRec) CheckImages(cfg Cfg, u *Universe, mode string, class string)
 }
 
 func imgKindClass(k string) string {
+	if k == "pl-unremoved" {
+		return "power-loss-unremoved"
+	}
 	if strings.HasPrefix(k, "pl-") {
 		return "power-loss"
 	}
